@@ -62,7 +62,8 @@ def widthStep (w : List Nat) (op : Op) : Nat :=
   | .input c => c | .conv _ c _ => c | .dw s _ => w.getD s 0 | .lin _ c _ => c
   | .fixed _ c _ _ => c | .fixedDw s _ => w.getD s 0 | .chan s => w.getD s 0
   | .add a _ => w.getD a 0 | .cat ss => (ss.map (w.getD · 0)).sum
-  | .tcat ss => w.getD (ss.headD 0) 0 | .flat s m => w.getD s 0 * m | .output s => w.getD s 0
+  | .tcat ss => (match ss with | [] => 0 | s :: _ => w.getD s 0)
+  | .flat s m => w.getD s 0 * m | .output s => w.getD s 0
 
 /-- static number of features of every node (`tensor_meta.shape[1]`) -/
 def widths (p : Prog) : List Nat := p.foldl (fun w op => w ++ [widthStep w op]) []
@@ -148,7 +149,7 @@ def maskStep (p : Prog) (labels : List Nat) (alphaOf : Nat → List Rat) (ms : L
   | .chan s => ms.getD s []
   | .add a _ => ms.getD a []
   | .cat ss => (ss.map (ms.getD · [])).flatten
-  | .tcat ss => ms.getD (ss.headD 0) []
+  | .tcat ss => (match ss with | [] => [] | s :: _ => ms.getD s [])
   | .flat s m => expand (ms.getD s []) m
   | .output s => ms.getD s []
 
@@ -192,8 +193,11 @@ def wellShaped (p : Prog) : Bool :=
   (p.zipIdx.all fun (op, n) => op.inputs.all (· < n)) &&
   p.all fun op => match op with
     | .add a b => w.getD a 0 == w.getD b 0
-    | .tcat ss => ss.all fun s => w.getD s 0 == w.getD (ss.headD 0) 0
+    | .tcat ss => ss.length == 2 && ss.all fun s => w.getD s 0 == w.getD (ss.headD 0) 0
     | _ => true
+
+/-- no layer is excluded from the search -/
+def noExcluded (p : Prog) : Bool := p.all fun op => !op.excluded
 
 /-! ### export plan and discrete cost -/
 
@@ -207,15 +211,14 @@ structure LayerPlan where
   groups : Nat
   deriving Repr
 
+/-- what `export` builds for the searchable layer at node `n` -/
+def planOf (p : Prog) (ms : List (List Bool)) (n : Nat) : LayerPlan :=
+  { node := n, outKept := keptIdx (ms.getD n []), inKept := keptIdx (inMask p ms n),
+    groups := match getOp p n with | .dw .. => countT (inMask p ms n) | _ => 1 }
+
 /-- what `export` builds for every searchable layer -/
 def exportPlan (p : Prog) (ms : List (List Bool)) : List LayerPlan :=
-  p.zipIdx.filterMap fun (op, n) =>
-    if op.searchable then
-      let o := ms.getD n []
-      let i := inMask p ms n
-      some { node := n, outKept := keptIdx o, inKept := keptIdx i,
-             groups := match op with | .dw .. => countT i | _ => 1 }
-    else none
+  ((List.range p.length).filter fun n => (getOp p n).searchable).map (planOf p ms)
 
 def b2n (b : Bool) : Nat := if b then 1 else 0
 
@@ -250,16 +253,23 @@ def costOps (p : Prog) (ms : List (List Bool)) (full : Bool) : Nat :=
 /-- the same metrics computed from scratch on the network `export` builds: every layer with the
 sizes of its exported weight tensor -/
 def exportedNodeParams (p : Prog) (ms : List (List Bool)) (n : Nat) : Nat :=
-  match (exportPlan p ms).find? (·.node = n) with
-  | some pl =>
-    (match getOp p n with
-     | .conv _ _ a => pl.outKept.length * (pl.inKept.length * a.k) + b2n a.bias * pl.outKept.length
-     | .dw _ a => pl.outKept.length * a.k + b2n a.bias * pl.outKept.length
-     | .lin _ _ a => pl.outKept.length * pl.inKept.length + b2n a.bias * pl.outKept.length
-     | _ => 0)
-  | none => 0
+  let pl := planOf p ms n
+  match getOp p n with
+  | .conv _ _ a => pl.outKept.length * (pl.inKept.length * a.k) + b2n a.bias * pl.outKept.length
+  | .dw _ a => pl.outKept.length * a.k + b2n a.bias * pl.outKept.length
+  | .lin _ _ a => pl.outKept.length * pl.inKept.length + b2n a.bias * pl.outKept.length
+  | _ => 0
+
+def exportedNodeOps (p : Prog) (ms : List (List Bool)) (n : Nat) : Nat :=
+  match getOp p n with
+  | .conv _ _ a => exportedNodeParams p ms n * a.osz
+  | .dw _ a => exportedNodeParams p ms n * a.osz
+  | .lin .. => exportedNodeParams p ms n
+  | _ => 0
 
 def exportedParams (p : Prog) (ms : List (List Bool)) : Nat :=
   ((List.range p.length).map (exportedNodeParams p ms)).sum
+def exportedOps (p : Prog) (ms : List (List Bool)) : Nat :=
+  ((List.range p.length).map (exportedNodeOps p ms)).sum
 
 end PlinioVerif.PIT
